@@ -12,3 +12,4 @@ INVARIANT ComplexAgrees
 INVARIANT ImplCorrect
 INVARIANT ImplRangeCorrect
 INVARIANT GeometryLaws
+INVARIANT UnchangedAxisOffsetIgnored
